@@ -46,6 +46,13 @@ def main():
     if not clean_repo():
         print('refusing: /repo has uncommitted changes')
         return 2
+    # the evidence files describe the UNCHANGED tree: keep them aside while the checks run on changed trees
+    import shutil
+    ev_dir = os.path.join(VERIF, 'evidence')
+    ev_keep = os.path.join(VERIF, '_work', 'evidence_keep')
+    shutil.rmtree(ev_keep, ignore_errors=True)
+    if os.path.isdir(ev_dir):
+        shutil.copytree(ev_dir, ev_keep)
     for sid in ids:
         d = os.path.join(SEEDED, sid)
         meta = json.load(open(os.path.join(d, 'meta.json')))
@@ -91,7 +98,10 @@ def main():
         results[sid] = rec
         print(sid, prop, 'DETECTED' if rec.get('detected') else 'MISSED', rec.get('detected_by'), rec.get('tests', ''))
         json.dump(results, open(results_path, 'w'), indent=1, sort_keys=True)
-    # leave the evidence files describing the unchanged tree: re-run is the caller's business
+    # put back the evidence files that describe the unchanged tree
+    if os.path.isdir(ev_keep):
+        for fn in os.listdir(ev_keep):
+            shutil.copy(os.path.join(ev_keep, fn), os.path.join(ev_dir, fn))
     return 0
 
 
